@@ -616,3 +616,124 @@ def _none_if(stop, unusable):
         stop = None
     return stop
 ''', "index2slice: step from a helper that returns None when there is none, stop through a `_none_if(stop, test)` helper")
+
+# ---- constructs met in the fourth round (stored as neutral/C18-N13..N16)
+_MKDOFPV_HEAD = '''    if isinstance(uset, pd.DataFrame):
+        if nasset != "p":
+            setpv = mksetpv(uset, "p", nasset)
+            uset = uset.loc[setpv]
+        uset_set = uset.index.get_level_values("id") * 10 + uset.index.get_level_values(
+            "dof"
+        )
+    else:
+        if nasset == "p":
+            uset_set = (uset[:, 0] * 10 + uset[:, 1]).astype(np.int64)
+        else:
+            raise ValueError('`nasset` must be "p" if `uset` is not a pandas DataFrame')
+'''
+RECIPES += [
+    ("C18", "neutral", [], N2P, "    pvi[pvi == i.size] -= 1\n    pv = i[pvi]\n\n    chk", "    np.minimum(pvi, i.size - 1, out=pvi)\n    pv = i[pvi]\n\n    chk",
+     "mkdofpv: clamp in place with np.minimum(..., out=pvi)"),
+    ("C18", "break", ["C18-R3"], N2P, "    pvi[pvi == i.size] -= 1\n    pv = i[pvi]\n\n    chk", "    np.minimum(pvi, i.size, out=pvi)\n    pv = i[pvi]\n\n    chk",
+     "mkdofpv: np.minimum(index, size, out=) does not clamp"),
+    ("C18", "neutral", [], LOC, "    pvi[pvi == i.size] -= 1\n    pv2 = i[pvi]", "    np.putmask(pvi, pvi == i.size, i.size - 1)\n    pv2 = i[pvi]",
+     "mat_intersect: clamp in place with np.putmask"),
+    ("C18", "neutral", [], LOC, "    pvi[pvi == i.size] -= 1\n    pv2 = i[pvi]", "    np.subtract.at(pvi, pvi == i.size, 1)\n    pv2 = i[pvi]",
+     "mat_intersect: clamp in place with np.subtract.at"),
+    ("C18", "neutral", [], N2P, _MKDOFPV_HEAD, '''    match uset:
+        case pd.DataFrame():
+            if nasset != "p":
+                uset = uset.loc[mksetpv(uset, "p", nasset)]
+            level = uset.index.get_level_values
+            uset_set = level("id") * 10 + level("dof")
+        case _ if nasset == "p":
+            uset_set = (uset[:, 0] * 10 + uset[:, 1]).astype(np.int64)
+        case _:
+            raise ValueError('`nasset` must be "p" if `uset` is not a pandas DataFrame')
+''', "mkdofpv: match statement with a class pattern and a guard, bound-method alias for get_level_values"),
+    ("C18", "break", ["C18-R3"], N2P, _MKDOFPV_HEAD, '''    match uset:
+        case pd.DataFrame():
+            if nasset != "p":
+                uset = uset.loc[mksetpv(uset, "p", nasset)]
+            level = uset.index.get_level_values
+            uset_set = level("id") * 10 + level("dof")
+        case _ if nasset != "p":
+            uset_set = (uset[:, 0] * 10 + uset[:, 1]).astype(np.int64)
+        case _:
+            raise ValueError('`nasset` must be "p" if `uset` is not a pandas DataFrame')
+''', "mkdofpv: match guard inverted (an array table is searched for a set it cannot know)"),
+    ("C18", "neutral", [], N2P, _MKDOFPV_TAIL, '''    found = _lookup_keys(uset_set, _dof)
+    if found.missing.any():
+        if strict:
+            raise ValueError("set '{}' does not contain all of the dof in `dof`. These are missing:\\n{}".format(nasset, dof[found.missing]))
+        present = ~found.missing
+        return found.pv[present], dof[present]
+    return found.pv, dof
+
+
+class _Lookup(NamedTuple):
+    pv: np.ndarray
+    missing: np.ndarray
+
+
+def _lookup_keys(table, keys):
+    i = np.argsort(table)
+    pvi = np.searchsorted(table, keys, sorter=i)
+    np.minimum(pvi, i.size - 1, out=pvi)
+    pv = i[pvi]
+    return _Lookup(pv, table[pv] != keys)
+''', "mkdofpv: look-up in a helper that returns a NamedTuple (positions, missing mask)"),
+    ("C18", "break", ["C18-R3"], N2P, _MKDOFPV_TAIL, '''    found = _lookup_keys(uset_set, _dof)
+    if found.missing.any():
+        if strict:
+            raise ValueError("missing")
+        return found.pv[found.missing], dof[found.missing]
+    return found.pv, dof
+
+
+class _Lookup(NamedTuple):
+    pv: np.ndarray
+    missing: np.ndarray
+
+
+def _lookup_keys(table, keys):
+    i = np.argsort(table)
+    pvi = np.searchsorted(table, keys, sorter=i)
+    np.minimum(pvi, i.size - 1, out=pvi)
+    pv = i[pvi]
+    return _Lookup(pv, table[pv] != keys)
+''', "mkdofpv: NamedTuple form in which non-strict keeps the missing rows"),
+    ("C18", "neutral", [], N2P, "    pvmajor = (uset_set & major) != 0\n    pvminor = (uset_set & minor) != 0\n",
+     "    pvmajor, pvminor = ((uset_set & m) != 0 for m in tuple((major, minor)))\n", "mksetpv: generator expression unpacked into the two membership vectors"),
+    ("C18", "neutral", [], LOC, '''    if pv.size == 0:
+        return slice(0)
+    if pv.size == 1:
+        stop = pv[0] + 1
+        if stop == 0:
+            stop = None
+        return slice(pv[0], stop)
+''', '''    match pv.size:
+        case 0:
+            return slice(0)
+        case 1:
+            start = pv[0]
+            stop = start + 1
+            return slice(start, None if stop == 0 else stop)
+''', "index2slice: match on the size"),
+    ("C18", "break", ["C18-R5"], LOC, '''    if pv.size == 0:
+        return slice(0)
+    if pv.size == 1:
+        stop = pv[0] + 1
+        if stop == 0:
+            stop = None
+        return slice(pv[0], stop)
+''', '''    match pv.size:
+        case 0:
+            return slice(0)
+        case 1:
+            start = pv[0]
+            stop = start + 1
+            return slice(start, None if stop <= 0 else stop)
+''', "index2slice: match form in which a single negative entry runs to the end"),
+    ("C18", "neutral", [], LOC, "        arr += 0.0\n", "        np.add(arr, 0.0, out=arr)\n", "_bytes_view: np.add(arr, 0.0, out=arr)"),
+]
